@@ -2,11 +2,12 @@
 """store_seed.py <PID> <k> <needs> <detected>  : copy /tmp/wt_<PID>/seed_k.diff + demo_k.cpp into /verif/seeded/<PID>-k"""
 import sys, os, shutil, json
 pid, k, needs, detected = sys.argv[1:5]
-d = '/verif/seeded/%s-%s' % (pid, k)
+name = os.environ.get("SEED_AS", k)
+d = "/verif/seeded/%s-%s" % (pid, name)
 os.makedirs(d, exist_ok=True)
 shutil.copy('/tmp/wt_%s/seed_%s.diff' % (pid, k), d + '/patch.diff')
 shutil.copy('/tmp/wt_%s/demo_%s.cpp' % (pid, k), d + '/demo.cpp')
-json.dump({"id": "%s-%s" % (pid, k), "property": pid, "needs_to_manifest": needs, "detected": detected,
+json.dump({"id": "%s-%s" % (pid, name), "property": pid, "needs_to_manifest": needs, "detected": detected,
            "what_was_run": ["sub-agent (given only the property text and a scratch worktree): full build, ctest -R '^(test_|bench_)' before/after (every test passing on the clean tree still passes; *_cmp re-run sequentially), demo PASS without / FAIL with the change",
                             "integrator: demo re-built and re-run in the worktree (exit 0 clean, exit 1 with the change); VERIF_REPO=<worktree with the change> tools/vcheck <check> --tier quick -> exit 1 with VIOLATION lines; exit 0 on the clean tree"]},
           open(d + '/meta.json', 'w'), indent=1)
